@@ -50,6 +50,9 @@ pub fn for_case(case: &Case) -> Box<dyn Oracle> {
         "C03" => Box::new(ReuseOracle::new(case, Modes { justify: true, ..Default::default() })),
         "C04" => Box::new(ReuseOracle::new(case, Modes { justify: true, untracked_rule: true, ..Default::default() })),
         "C06" => Box::new(ReuseOracle::new(case, Modes { justify: true, ts_identity: true, ..Default::default() })),
+        "C05" => Box::new(ReuseOracle::new(case, Modes { justify: true, lru: true, ..Default::default() })),
+        "C09" => Box::new(ReuseOracle::new(case, Modes { justify: true, intern: true, ..Default::default() })),
+        "C07" => Box::new(crate::alias::AliasOracle { inner: Some(Box::new(ReuseOracle::new(case, Modes { justify: true, ..Default::default() }))), ..Default::default() }),
         _ => Box::new(NoOracle),
     }
 }
